@@ -218,7 +218,12 @@ class ParsedCommand(object):
         # locals so we import it manually to avoid any issues.
         import numpy as np  # noqa
         if data is not None and np.isscalar(result):
-            result = np.ones(view_shape(data.shape, view)) * result
+            if isinstance(result, np.generic):
+                # a single element of the data (all-integer view): keep its
+                # type, as the same expression over the whole array does
+                result = np.full(view_shape(data.shape, view), result)
+            else:
+                result = np.ones(view_shape(data.shape, view)) * result
 
         return result
 
